@@ -148,20 +148,24 @@ theorem C03_array_traversal (d : Nat) (q : NBox) (a : RTreeArr.Arr) (hps : 1 ≤
     RTreeArr.loop d q a a.len [0] ([], []) = query d q (build a.ps a.D a.rows) :=
   RTreeArr.loop_eq_query d q a hps hold
 
-/-- **the coded bottom-up pass fills `bounds_tree` with the boxes of the sub-trees**: the page loop (one leaf row per page, absent
-pages left NaN) and the layer loops of `_build_hilbert_rtree` as coded (children read from the array being filled, a NaN child
-ignored, nothing written when both are NaN, `start` / `stop` moved by `_parent`) leave in row `2^t − 1 + j` the box of the
-sub-tree at depth `t`, position `j` - for every number of rows, page size and dimension -/
+/-- **the coded bottom-up pass fills `bounds_tree` with the boxes of the sub-trees**: the array `np.full((tree_length, 2n), nan)`
+after the page loop (one leaf row per page, absent pages left NaN) and the layer loops of `_build_hilbert_rtree` as coded (children
+read from the array being filled, a NaN child ignored, nothing written when both are NaN, `start` / `stop` moved by `_parent`) holds
+in row `2^t − 1 + j` the box of the sub-tree at depth `t`, position `j` - for every number of rows, page size and dimension.
+`fillL` is the model the driver runs and the correspondence compares with the real `bounds_tree` -/
 theorem C03_bottom_up_pass (d ps : Nat) (rows : List Row) (hps : 1 ≤ ps) :
-    ({ D := clog2 (numPages rows.length ps), ps := ps, bt := RTreeFill.fill d ps rows, rows := rows } : RTreeArr.Arr).Holds d :=
-  RTreeFill.fill_holds d ps rows hps
+    (RTreeFill.fillL d ps rows).length = 2 * 2 ^ clog2 (numPages rows.length ps) - 1 ∧
+    ({ D := clog2 (numPages rows.length ps), ps := ps, bt := fun i => (RTreeFill.fillL d ps rows).getD i none, rows := rows } :
+      RTreeArr.Arr).Holds d :=
+  ⟨RTreeFill.fillL_length d ps rows, RTreeFill.fillL_holds d ps rows hps⟩
 
 /-- **end to end over the arrays**: the traversal as coded over the `bounds_tree` produced by the coded bottom-up pass returns the
 covered rows and the maybe-rows of the recursive query over `buildTree` - the tree of the exactness theorems -/
 theorem C03_array_index_end_to_end (d ps : Nat) (q : NBox) (rows : List Row) (hps : 1 ≤ ps) :
-    let a : RTreeArr.Arr := { D := clog2 (numPages rows.length ps), ps := ps, bt := RTreeFill.fill d ps rows, rows := rows }
+    let a : RTreeArr.Arr := { D := clog2 (numPages rows.length ps), ps := ps,
+                              bt := fun i => (RTreeFill.fillL d ps rows).getD i none, rows := rows }
     RTreeArr.loop d q a a.len [0] ([], []) = query d q (buildTree ps rows) :=
-  RTreeArr.loop_eq_query d q _ hps (RTreeFill.fill_holds d ps rows hps)
+  RTreeArr.loop_eq_query d q _ hps (RTreeFill.fillL_holds d ps rows hps)
 
 /-! non-vacuity: the coded pass on three rows, page size 1 (depth 2, one absent page): root, two inner nodes, three leaves, a NaN row -/
 example : RTreeFill.boundsTreeCoded 2 1 [(0, [0,0,1,1]), (1, [2,2,3,3]), (2, [0,2,1,5])] =
